@@ -42,6 +42,7 @@ type World struct {
 	CwdStale     bool     // the reference cwd no longer is the directory Chdir named
 	tempK, tempE string   // snapshot paths of the pending temp object on each side
 	chdirPath    string   // what the last successful Chdir reached (kernel view)
+	FastReads    bool     // skip the tree comparison after read-only calls
 }
 
 // NewVFS creates a fresh Linux-typed emulated file system of the kind.
@@ -278,6 +279,9 @@ func (w *World) Step(prop string, o fsx.Op) (oe, ok fsx.Out, dev *vt.Deviation) 
 	if oe.Val != ok.Val {
 		return oe, ok, mk("val", "val:"+valDiffClass(o, ok.Val, oe.Val), "returned value differs")
 	}
+	if w.FastReads && readOnly[o.K] {
+		return oe, ok, nil // a read-only call that answered identically: the trees are not re-walked
+	}
 	// track the reference cwd: chdirPath is what the last successful Chdir
 	// reached; the working directory is stale when the kernel's Getwd no longer
 	// returns it (the directory was renamed or removed afterwards)
@@ -410,3 +414,5 @@ func newPath(old, cur fsx.Snap) string {
 	}
 	return found
 }
+
+var readOnly = map[string]bool{"Stat": true, "Lstat": true, "ReadFile": true, "ReadDir": true, "EvalSymlinks": true, "Readlink": true, "Getwd": true, "WalkDir": true, "Glob": true, "Mtime": true}
